@@ -63,12 +63,26 @@ type SchedSpec struct {
 	MemYields bool `json:"mem_yields,omitempty"`
 }
 
+type WarmupSpec struct {
+	Base   uint64 `json:"base"`
+	Tier   string `json:"tier"`
+	Shard  int    `json:"shard"`
+	Shards int    `json:"shards"`
+	Upto   int    `json:"upto"`
+	Regen  bool   `json:"regen,omitempty"`
+}
+
 type Scenario struct {
 	Prop   string          `json:"prop"`
 	Seed   uint64          `json:"seed"`
 	Index  int             `json:"index"`
 	Sched  SchedSpec       `json:"sched"`
 	Params json.RawMessage `json:"params"`
+	// Warmup (replay files only): the violation depends on state that the code under test
+	// keeps across calls at package level. The scenarios the same worker had run before
+	// (indices Shard, Shard+Shards, ... below Upto of batch Base/Tier) are executed first,
+	// unjudged; with Regen the failing scenario itself is generated again as number Upto.
+	Warmup *WarmupSpec `json:"warmup,omitempty"`
 	// filled in when written as a replay file
 	Class  string `json:"violation_class,omitempty"`
 	Detail string `json:"violation_detail,omitempty"`
@@ -449,6 +463,19 @@ func Main(t *testing.T) {
 		var sc Scenario
 		if err := json.Unmarshal(b, &sc); err != nil {
 			t.Fatal(err)
+		}
+		if w := sc.Warmup; w != nil && w.Shards > 0 {
+			k := 0
+			for idx := w.Shard; idx < w.Upto; idx += w.Shards {
+				tick()
+				k++
+				runOne(t, p, genScenario(p, w.Base, w.Tier, idx), diskRoot, k, false)
+			}
+			if w.Regen {
+				regen := genScenario(p, w.Base, w.Tier, w.Upto)
+				regen.Warmup = w
+				sc = *regen
+			}
 		}
 		info, rc := runOne(t, p, &sc, diskRoot, 0, true)
 		out.Evaluations = 1
